@@ -12,7 +12,7 @@ RULE = ("Uniquely named sequences (2..25 generated sets; one case in six is tall
         "alignments), 'same' (test = reference with rows permuted and all-gap columns inserted, expected score 100) and "
         "'perturbed' (test = reference with a few residues shifted). Oracle: independent python implementation of the "
         "definition - over ordered pairs of sequences and residues, the partner-or-gap in the reference vs the test - with "
-        "score == float32(100.0*hits/total) exactly (the double quotient rounded once to the float that is returned); 0 <= score <= 100; equal score after permuting the rows of either argument; a third of the cases repeat the call 3 or 12 times with a drawn OMP_NUM_THREADS (1, 2, 8, 16, default) and all results must be equal. extra(): comparisons of 400x12, 120x40 and 30x200 (rows x columns) alignments under ThreadSanitizer + Archer with a 4-thread team (a data-race report with a kalign frame is a violation) and 40 repetitions on the un-sanitised build with 8 threads (one value, the defined one). "
+        "score == float32(100.0*hits/total) exactly (the double quotient rounded once to the float that is returned); 0 <= score <= 100; equal score after permuting the rows of either argument; a third of the cases repeat the call 3 or 12 times with a drawn OMP_NUM_THREADS (1, 2, 8, 16, default) and all results must be equal. extra(): alignments of 505..530 and 1020..1044 columns read from FASTA and from Clustal / MSF files (100 expected, and the defined score against a one-residue shift); comparisons of 400x12, 120x40 and 30x200 (rows x columns) alignments under ThreadSanitizer + Archer with a 4-thread team (a data-race report with a kalign frame is a violation) and 40 repetitions on the un-sanitised build with 8 threads (one value, the defined one). "
         "Non-trivial = 0 < score < 100; class identical_up_to_order_and_gap_columns.")
 ASSUMPTIONS = ["files contain at least one gap character (a gap-free file is by design not recognised as an alignment)",
                "names unique, from [A-Za-z0-9_.|-], <= 30 characters"]
@@ -213,6 +213,8 @@ def _shuffled(names, rows, seed):
 def check(case):
     if case.get("leg") == "race":
         return check_race(case)
+    if case.get("leg") == "wide":
+        return check_wide(case)
     names, seqs = case["names"], case["seqs"]
     n = len(seqs)
     if n < 2 or len(set(names)) != n:
@@ -345,8 +347,51 @@ def check_race(case):
                      key="race:%dx%d" % (len(names), len(ref[0])))
 
 
+def check_wide(case):
+    """one alignment of 505..1044 columns written as FASTA and as Clustal / MSF (rows around the 512- and 1024-residue
+    increments of the readers' row buffers, a gap run right behind a row's last residue): the comparison of the two files
+    must give exactly 100, and a one-residue shift must give exactly the defined score"""
+    import numpy as np
+    w, fmt = case["width"], case["fmt"]
+    full = "".join("ACDEFGHIKLMNPQRSTVWY"[(c * 7 + c // 3) % 20] for c in range(w))
+    rows = [full, full[:w - 5] + "-----", "---" + full[3:], full[:w - 9] + "----" + full[w - 5:]]
+    names = ["w%d" % i for i in range(4)]
+    kl = "P"
+    wd = runner.workdir()
+    f0 = wd.write(formats.write_fasta(names, rows, width=60).encode("latin-1"), ".afa")
+    text = formats.write_msf(names, rows, kind=kl) if fmt == "msf" else formats.write_clustal(names, rows)
+    f1 = wd.write(text.encode("latin-1"), "." + fmt)
+    shifted = list(rows)
+    shifted[1] = full[:w - 6] + "-" + full[w - 6] + "----"
+    f2 = wd.write((formats.write_msf(names, shifted, kind=kl) if fmt == "msf" else formats.write_clustal(names, shifted)).encode("latin-1"), "." + fmt)
+    lines = ["read 0 1 %s" % f0, "finalise 0", "read 1 1 %s" % f1, "finalise 1", "read 2 1 %s" % f2, "finalise 2", "compare 0 1", "compare 1 0", "compare 0 2",
+             "free 0", "free 1", "free 2"]
+    pr = runner.run_probe(lines)
+    cl = ["leg=wide", "fmt=" + fmt]
+    if pr.ended.bad or pr.steps is None or len(pr.steps) != len(lines):
+        return engine.violation({"what": "process failure", **pr.ended.brief()}, classes=cl, kind="crash")
+    st_ = pr.steps
+    if any(st_[i]["rc"] != 0 for i in range(6)):
+        return engine.discard("an alignment could not be loaded (C04/C06 territory): %s" % [st_[i]["rc"] for i in range(6)], classes=cl)
+    hits, total = score_ref(names, rows, names, shifted)
+    want = np.float32(100.0 * hits / total)
+    got = [(st_[i].get("rc"), st_[i].get("score")) for i in (6, 7, 8)]
+    if got[0] != (0, 100.0) or got[1] != (0, 100.0):
+        return engine.violation({"what": "the same %d-column alignment read from a FASTA and from a %s file compares as %r / %r, not 100" % (w, fmt, got[0], got[1])}, classes=cl)
+    if got[2][0] != 0 or np.float32(got[2][1]) != want:
+        return engine.violation({"what": "%d-column alignment against a copy with one residue shifted (%s file): score %r, the definition gives %r" % (w, fmt, got[2], float(want))}, classes=cl)
+    return engine.ok(True, cl, {"width": w, "fmt": fmt}, key="wide:%d:%s" % (w, fmt))
+
+
 def extra(tier, seed, stats):
     out = []
+    for w in list(range(505, 531)) + list(range(1020, 1045)):
+        for fmt in ("clu", "msf"):
+            case = {"leg": "wide", "width": w, "fmt": fmt}
+            r = check_wide(case)
+            stats.record(case, r)
+            if r["status"] == "violation":
+                out.append({"case": case, "detail": r["detail"], "kind": r.get("kind")})
     rnd = random.Random(seed * 13 + 1)
     shapes = [(400, 12), (120, 40), (30, 200)] if tier == "quick" else [(400, 12), (800, 8), (120, 40), (60, 120), (30, 200), (250, 30)]
     for n, L in shapes:
